@@ -779,6 +779,9 @@ def run(ctx):
     # repeat count of the run it was cut from overwrites its neighbours (run arithmetic of the expanding traversals, shared with C08)
     from .c08 import r08c
     r08c(ctx)
+    # del_span and the area reads get their rectangle through Table.get_cells: a bound of 0 taken for "no bound" widens it to whole rows (rule shared with C19)
+    from .c19 import r19l
+    r19l(ctx)
 
 
 from ..selftest import Seed, unparse_seed  # noqa: E402
